@@ -23,7 +23,7 @@ def _dyn_refs(ss):
     return out
 
 
-def observe_init(ss, consistent=True):
+def observe_init(ss, consistent=True, known_at_limit=()):
     pf = ss.PFlow
     bus_a0, bus_v0 = np.array(ss.Bus.a.v), np.array(ss.Bus.v.v)
     sg_u0 = {}
@@ -39,17 +39,20 @@ def observe_init(ss, consistent=True):
     if raised:
         return dict(e="init", raised=True, raised_text=raised, bus_av_kept=True, handover_exact=True, test_ok=False, residual_small=False,
                     exit_bumped=True, consistent=consistent, bus_injection_kept=True, shares_sum_one=True)
-    # the property's precondition "inside all limiter ranges": every limiter of the dynamic models reports "inside"
-    inside = True
+    # the property's precondition "inside all limiter ranges": every limiter of an in-service device of the dynamic models
+    # reports "inside" (the variables of an out-of-service device are not an operating point); for a variant of a case that
+    # initialises as shipped, the limiters that sit at a bound in the shipped case (``known_at_limit``) do not count
+    at_limit = []
     from andes.core.discrete import Limiter
     for mdl in ss.exist.tds.values():
         if mdl.n == 0:
             continue
-        for dsc in mdl.discrete.values():
+        for dname, dsc in mdl.discrete.items():
             if isinstance(dsc, Limiter) and dsc.enable:
                 zi = np.atleast_1d(dsc.zi)
-                if len(zi) == mdl.n and not np.all(zi == 1):
-                    inside = False
+                if len(zi) == mdl.n:
+                    at_limit += ["%s.%s[%s]" % (mdl.class_name, dname, mdl.idx.v[k]) for k in range(mdl.n) if mdl.u.v[k] == 1 and zi[k] != 1]
+    inside = all(x in known_at_limit for x in at_limit)
     consistent = bool(consistent and inside)
     refs = _dyn_refs(ss)
     online = {}
@@ -81,7 +84,8 @@ def observe_init(ss, consistent=True):
                 handover_exact=bool(handover), test_ok=bool(ss.TDS.test_ok is True), residual_small=residual_small,
                 exit_bumped=bool(ss.exit_code > ec0), consistent=consistent,
                 bus_injection_kept=bool(not np.isnan(bus_res).any() and (len(bus_res) == 0 or bus_res.max() < tol)),
-                shares_sum_one=bool(shares), maxfg=float(np.nanmax(np.abs(fg))) if len(fg) else 0.0, n_dyn_refs=len(refs))
+                shares_sum_one=bool(shares), maxfg=float(np.nanmax(np.abs(fg))) if len(fg) else 0.0, n_dyn_refs=len(refs),
+                at_limit=at_limit[:40])
 
 
 def verdict_probes(ss):
@@ -174,7 +178,7 @@ def stock(sc):
     # whether stock data are "consistent and inside all limiter ranges" is not known: the clause about them is vacuous here
     # a variant of a case that initialises as shipped has consistent data as well: a controller out of service leaves its
     # machine with constant input, load weights that add up to one draw the power-flow power at the power-flow voltage
-    ev = [observe_init(ss, consistent=bool(sc.get("baseline_ok", False)))]
+    ev = [observe_init(ss, consistent=bool(sc.get("baseline_ok", False)), known_at_limit=tuple(sc.get("baseline_at_limit", ())))]
     if not ev[0]["raised"] and ev[0]["test_ok"] and sc.get("probes", True):
         ev.extend(verdict_probes(ss))
     # a case driven by recorded data (time-series / play-back sources) has no undisturbed run
